@@ -1,11 +1,33 @@
 import RegressModel.Unicode.Packed
 import RegressModel.Gen.Folds
+import RegressModel.Gen.Consts
+import RegressModel.Sets.CodePointSet
 /-!
 # Case folding
 
 Model of the fold machinery of `src/unicode.rs` over the tables generated from
 `src/unicodetables.rs` (`Gen.FOLDS`, `Gen.TO_UPPERCASE`): `FoldRange::{apply, add_delta, …}`,
-`fold`, `uppercase`, `fold_code_point`.
+`fold`, `uppercase`, `fold_code_point`, `fold_interval`, `unfold_interval`, `unfold_char`,
+`unfold_uppercase_char`, `expand_code_point`, `add_icase_code_points`; of `CharProperties::{fold,
+is_word_char, is_word_char_unicode_icase}` (`src/matchers.rs`) and `InputIndexer::fold_equals`
+(`src/indexing.rs`).
+
+Modelling conventions (trusted steps):
+
+* `binary_search_by` over the rows is "the first row containing `cu`" (`findRow`); on a table whose
+  rows are sorted and disjoint (`Proofs/C10.lean: folds_rows_wf`) that is *the* row containing `cu`.
+* `FOLDS.equal_range_by(..)` in `fold_interval` is the linear scan it equals on sorted rows (same
+  convention as `CPS.equalRange`): skip the leading rows comparing `Less`, take the following rows
+  comparing `Equal`.
+* `predicate_mask() + 1` is the stored `modulo` (`mask = modulo - 1`, `modulo ≥ 1`).
+* `while cu <= last { ..; cu += modulo }` is `strideWalk` with fuel `last + 1 - start` (enough
+  whenever `modulo ≥ 1`); `for cu in a..(b + 1)` is a fold over `List.range' a (b + 1 - a)`.
+* `Vec::push x` is `res ++ [x]`; `sort_unstable` is an insertion sort (any sort gives the same
+  result on `u32`s); `dedup` removes consecutive repeats.
+* `unfold_char` and `unfold_uppercase_char` are the same text over `FOLDS`/`fold` and
+  `TO_UPPERCASE`/`uppercase`; they are instances of `unfoldCharWith`.  Likewise `fold` and
+  `uppercase` are instances of `foldWith` (`fold c = foldWith folds c` by `rfl`).
+* `debug_assert!`s are not modelled.
 -/
 namespace Regress.Fold
 
@@ -67,5 +89,187 @@ def foldCodePoint (cu : Nat) (unicode : Bool) : Nat :=
 
 /-- `unicodetables::nonascii_folds_to_ascii_word_char`. -/
 def nonasciiFoldsToAsciiWordChar (c : Nat) : Bool := Gen.wordFoldExtras.contains c
+
+/-! ## Generic versions over an arbitrary row table -/
+
+/-- The common body of `fold` and `uppercase`. -/
+def foldWith (tbl : List FoldRange) (cu : Nat) : Nat :=
+  match findRow tbl cu with
+  | some fr => fr.apply cu
+  | none => cu
+
+/-- `transformed_to`. -/
+def FoldRange.transformedTo (fr : FoldRange) : CPS.Interval :=
+  { first := fr.addDelta fr.first, last := fr.addDelta fr.last }
+
+/-- `transformed_from`. -/
+def FoldRange.transformedFrom (fr : FoldRange) : CPS.Interval :=
+  { first := fr.first, last := fr.last }
+
+/-- `can_apply`. -/
+def FoldRange.canApply (fr : FoldRange) (cu : Nat) : Bool := fr.transformedFrom.contains cu
+
+/-- `Interval::codepoints`: the range `first..(last + 1)`. -/
+def codepoints (iv : CPS.Interval) : List Nat := List.range' iv.first (iv.last + 1 - iv.first)
+
+/-! ## `sort_unstable` and `dedup` -/
+
+def insertSorted (x : Nat) : List Nat → List Nat
+  | [] => [x]
+  | y :: ys => if x ≤ y then x :: y :: ys else y :: insertSorted x ys
+
+/-- `sort_unstable` on a `Vec<u32>`. -/
+def sortNat : List Nat → List Nat
+  | [] => []
+  | x :: xs => insertSorted x (sortNat xs)
+
+/-- `Vec::dedup`: remove consecutive repeated elements. -/
+def dedup : List Nat → List Nat
+  | [] => []
+  | [x] => [x]
+  | x :: y :: r => if x == y then dedup (y :: r) else x :: dedup (y :: r)
+
+/-! ## `unfold_char`, `unfold_uppercase_char`, `expand_code_point` -/
+
+/-- Body of `for tr in TABLE.iter()` in `unfold_char` / `unfold_uppercase_char`. -/
+def unfoldRow (tr : FoldRange) (fcp : Nat) (res : List Nat) : List Nat :=
+  if !tr.transformedTo.contains fcp then res   -- continue
+  else
+    (codepoints tr.transformedFrom).foldl
+      (fun res cp => let tcp := tr.apply cp; if tcp == fcp then res ++ [cp] else res) res
+
+/-- `unfold_char` (with `tbl = FOLDS`) / `unfold_uppercase_char` (with `tbl = TO_UPPERCASE`). -/
+def unfoldCharWith (tbl : List FoldRange) (c : Nat) : List Nat :=
+  let res := [c]
+  let fcp := foldWith tbl c
+  let res := if fcp != c then res ++ [fcp] else res
+  let res := tbl.foldl (fun res tr => unfoldRow tr fcp res) res
+  dedup (sortNat res)
+
+/-- `unicode::unfold_char`. -/
+def unfoldChar (c : Nat) : List Nat := unfoldCharWith folds c
+
+/-- `unicode::unfold_uppercase_char`. -/
+def unfoldUppercaseChar (c : Nat) : List Nat := unfoldCharWith toUppercase c
+
+/-- `unicode::expand_code_point`. -/
+def expandCodePoint (c : Nat) (icase unicode : Bool) : List Nat :=
+  if !icase then [c]
+  else if unicode then unfoldChar c
+  else unfoldUppercaseChar c
+
+/-- The check `chars.len() > MAX_CHAR_SET_LENGTH` sites (`emit.rs`, `literal.rs`, `parse.rs`) rely on:
+`unfold_char` results have at most `MAX_CHAR_SET_LENGTH` elements (`Proofs/C10.lean: unfold_le_4`). -/
+def MAX_CHAR_SET_LENGTH : Nat := Gen.MAX_CHAR_SET_LENGTH
+
+/-! ## `fold_interval`, `unfold_interval`, `add_icase_code_points` -/
+
+/-- `while cu <= last { body(cu); cu += step }`, with `fuel ≥ last + 1 - cu` iterations available
+(enough when `step ≥ 1`). -/
+def strideWalk (step last : Nat) (body : CPS.IvList → Nat → CPS.IvList) :
+    (fuel cu : Nat) → CPS.IvList → CPS.IvList
+  | 0, _, recv => recv
+  | fuel + 1, cu, recv =>
+    if cu ≤ last then strideWalk step last body fuel (cu + step) (body recv cu) else recv
+
+/-- The comparator of `fold_interval`'s `equal_range_by`. -/
+def overlapCmp (iv : CPS.Interval) (tr : FoldRange) : Ordering :=
+  if tr.first > iv.last then Ordering.gt
+  else if tr.last < iv.first then Ordering.lt
+  else Ordering.eq
+
+/-- `&TABLE[TABLE.equal_range_by(overlapCmp iv)]` as the linear scan it equals on sorted rows. -/
+def overlapRows (tbl : List FoldRange) (iv : CPS.Interval) : List FoldRange :=
+  let left := (tbl.takeWhile (fun tr => overlapCmp iv tr == Ordering.lt)).length
+  let right := left + ((tbl.drop left).takeWhile (fun tr => overlapCmp iv tr == Ordering.eq)).length
+  (tbl.drop left).take (right - left)
+
+/-- Body of `for fr in &FOLDS[overlaps]` in `fold_interval`. -/
+def foldIntervalRow (fr : FoldRange) (iv : CPS.Interval) (recv : CPS.IvList) : CPS.IvList :=
+  let firstTrans := max fr.first iv.first
+  let lastTrans := min fr.last iv.last
+  let modulo := fr.modulo
+  if modulo == 1 then
+    (List.range' firstTrans (lastTrans + 1 - firstTrans)).foldl
+      (fun recv cu => let cs := fr.addDelta cu; if cs != cu then CPS.addOne recv cs else recv) recv
+  else
+    let offsetStart := firstTrans - fr.first
+    let startAligned := firstTrans + ((modulo - (offsetStart % modulo)) % modulo)
+    strideWalk modulo lastTrans (fun recv cu => CPS.addOne recv (fr.addDelta cu))
+      (lastTrans + 1 - startAligned) startAligned recv
+
+def foldIntervalWith (tbl : List FoldRange) (iv : CPS.Interval) (recv : CPS.IvList) : CPS.IvList :=
+  (overlapRows tbl iv).foldl (fun recv fr => foldIntervalRow fr iv recv) recv
+
+/-- `unicode::fold_interval`. -/
+def foldInterval (iv : CPS.Interval) (recv : CPS.IvList) : CPS.IvList := foldIntervalWith folds iv recv
+
+/-- Body of `for tr in FOLDS.iter()` in `unfold_interval`. -/
+def unfoldIntervalRow (tr : FoldRange) (iv : CPS.Interval) (recv : CPS.IvList) : CPS.IvList :=
+  if !iv.overlaps tr.transformedTo then recv   -- continue
+  else
+    let modulo := tr.modulo
+    let firstSource := tr.first
+    let lastSource := tr.last
+    let processCp := fun (recv : CPS.IvList) (cp : Nat) =>
+      let tcp := tr.apply cp
+      if tcp != cp && iv.contains tcp then CPS.addOne recv cp else recv
+    if modulo == 1 then
+      (List.range' firstSource (lastSource + 1 - firstSource)).foldl processCp recv
+    else
+      strideWalk modulo lastSource processCp (lastSource + 1 - firstSource) firstSource recv
+
+def unfoldIntervalWith (tbl : List FoldRange) (iv : CPS.Interval) (recv : CPS.IvList) : CPS.IvList :=
+  tbl.foldl (fun recv tr => unfoldIntervalRow tr iv recv) recv
+
+/-- `unicode::unfold_interval`. -/
+def unfoldInterval (iv : CPS.Interval) (recv : CPS.IvList) : CPS.IvList :=
+  unfoldIntervalWith folds iv recv
+
+def addIcaseCodePointsWith (tbl : List FoldRange) (input : CPS.IvList) : CPS.IvList :=
+  -- let mut folded = input.clone(); for iv in input.intervals() { fold_interval(*iv, &mut folded) }
+  let folded := input.foldl (fun folded iv => foldIntervalWith tbl iv folded) input
+  -- input.clone_from(&folded); for iv in folded.intervals() { unfold_interval(*iv, &mut input) }
+  folded.foldl (fun input iv => unfoldIntervalWith tbl iv input) folded
+
+/-- `unicode::add_icase_code_points`. -/
+def addIcaseCodePoints (input : CPS.IvList) : CPS.IvList := addIcaseCodePointsWith folds input
+
+/-! ## `CharProperties` (`src/matchers.rs`) and `fold_equals` (`src/indexing.rs`) -/
+
+/-- `u8::to_ascii_lowercase`. -/
+def asciiLower (c : Nat) : Nat := if 0x41 ≤ c && c ≤ 0x5A then c + 0x20 else c
+
+/-- `u8::to_ascii_uppercase`. -/
+def asciiUpper (c : Nat) : Nat := if 0x61 ≤ c && c ≤ 0x7A then c - 0x20 else c
+
+/-- `ASCIICharProperties::fold`. -/
+def asciiFold (c : Nat) (unicode : Bool) : Nat := if unicode then asciiLower c else asciiUpper c
+
+/-- A `char` is a code point that is not a surrogate. -/
+def isScalar (c : Nat) : Bool := c < 0xD800 || (0xE000 ≤ c && c ≤ 0x10FFFF)
+
+/-- `UTF8CharProperties::fold`: `char::from_u32(fold_code_point(c, unicode)).unwrap_or(c)`. -/
+def utf8Fold (c : Nat) (unicode : Bool) : Nat :=
+  let f := foldCodePoint c unicode
+  if isScalar f then f else c
+
+/-- `Utf16CharProperties::fold`. -/
+def utf16Fold (c : Nat) (unicode : Bool) : Nat := foldCodePoint c unicode
+
+/-- `CharProperties::is_word_char`. -/
+def isWordChar (c : Nat) : Bool :=
+  (0x61 ≤ c && c ≤ 0x7A) || (0x41 ≤ c && c ≤ 0x5A) || (0x30 ≤ c && c ≤ 0x39) || c == 0x5F
+
+/-- `CharProperties::is_word_char_unicode_icase`. -/
+def isWordCharUnicodeIcase (c : Nat) : Bool := isWordChar c || nonasciiFoldsToAsciiWordChar c
+
+/-- `InputIndexer::fold_equals` (for the code-point based indexers). -/
+def foldEquals (c1 c2 : Nat) (unicode : Bool) : Bool :=
+  c1 == c2 || foldCodePoint c1 unicode == foldCodePoint c2 unicode
+
+/-- `InputIndexer::fold_equals` for the ASCII indexer. -/
+def asciiFoldEquals (c1 c2 : Nat) (unicode : Bool) : Bool :=
+  c1 == c2 || asciiFold c1 unicode == asciiFold c2 unicode
 
 end Regress.Fold
